@@ -160,8 +160,11 @@ def run_cases(pid, seed, n, tier, release, report, tagsuffix=""):
         report["driver_error"] = f"line count mismatch ops={len(ops)} impl={len(imp)} model={len(mod)}"
         return None
     for o, i, m in zip(ops, imp, mod):
-        if m == "unsupported":
+        if m == "unsupported" or m.startswith("unsupported:"):
             unsupported += 1
+            why = m[12:] or "-"
+            stats.setdefault("hist", {})
+            stats["hist"]["outside-model:" + why] = stats["hist"].get("outside-model:" + why, 0) + 1
         elif i != m:
             dis.append({"case": o, "impl": i, "model": m})
     return {"stats": stats, "disagreements": dis, "ops": ops, "imp": imp, "unsupported": unsupported}
